@@ -187,6 +187,12 @@ class WMSSource(MapLayer):
                 query.dimensions_for_params(other.fwd_req_params)):
             return False
 
+        # the combined source has no res_range: do not combine a source
+        # that is outside of its own range for this request
+        for source in (self, other):
+            if source.res_range and not source.res_range.contains(query.bbox, query.size, query.srs):
+                return False
+
         return True
 
     def combined_layer(self, other, query):
